@@ -605,18 +605,21 @@ def materialise(ctx, base, case, tag):
 
 
 HANG_CONFIRMED = set()
+HANG_PRESEEDED = set()
 
 
-def run_and_classify(d, args, fork=False, threads=1, kind="input"):
+def run_and_classify(d, args, fork=False, threads=1, kind="input", pinned=False):
     tools.fresh(os.path.join(d, "out.bin"))
     res = run_wild(d, list(args) + ["-o", "out.bin"], fork=fork, threads=threads)
     v, sig, detail = classify(res)
     if v == "timeout":
         hsig = "hang:" + kind
-        if hsig in HANG_CONFIRMED:
+        if hsig in HANG_CONFIRMED or (hsig in HANG_PRESEEDED and not pinned):
             return ("inconclusive", None, "timeout of a kind already confirmed as a hang in this run (not re-run)"), res
         # two more runs (in parallel, separate output names); all three must exceed the watchdog
         outs = [None, None]
+        if pinned:
+            HANG_CONFIRMED.discard(hsig)
 
         def again(k):
             outs[k] = run_wild(d, list(args) + ["-o", f"out{k}.bin"], fork=fork, threads=threads)
@@ -674,6 +677,17 @@ def minimise(ctx, base, case, sig, tag):
     return best
 
 
+def hang_class(cls):
+    """Coarse structure name for hang signatures (which record of the file was damaged)."""
+    c = cls.split("+")[0]
+    for pre in ("so:", "ar.member:"):
+        if c.startswith(pre):
+            c = c[len(pre):]
+    if c.startswith("bytes:"):
+        return {"RELA": "rela", "SYMTAB": "sym", "DYNSYM": "sym", "STRTAB": "strtab", "GROUP": "group"}.get(c[6:], "bytes")
+    return c.split(".")[0].split(":")[0]
+
+
 def pin(case, sig, detail):
     """Stores a reproducer under props/C22_pinned (only when VERIF_C22_PIN=1)."""
     name = re.sub(r"[^A-Za-z0-9_.-]+", "_", sig)[:80]
@@ -701,7 +715,7 @@ def report(ctx, base, case, sig, detail, cid, d):
     if sig.startswith("hang:"):
         det2 = detail
         if small.get("muts") and not small["cls"].startswith("text."):
-            sig = sig + ":" + small["cls"]
+            sig = sig + ":" + hang_class(small["cls"])
     else:
         (v, s2, det2), res = run_and_classify(md, small["args"])
         if s2 != sig:
@@ -767,7 +781,7 @@ def replay_pinned(ctx, base, name):
     files = {n: read(os.path.join(pd, n)) for n in os.listdir(pd) if n != "args.json"}
     case = dict(cmd=meta.get("base", "?"), args=meta["args"], files=files, cls=meta.get("mutation", "pinned"))
     d = materialise(ctx, base, case, "pin-" + name)
-    (v, sig, detail), res = run_and_classify(d, case["args"], kind=meta.get("kind", "input"))
+    (v, sig, detail), res = run_and_classify(d, case["args"], kind=meta.get("kind", "input"), pinned=True)
     ctx.note("pinned-replayed")
     if v == "violation":
         with _lock:
@@ -825,5 +839,13 @@ def main(ctx):
             replay_pinned(ctx, base, j[1])
         else:
             one_case(ctx, base, cmds, options, j[1])
+    # Pinned hangs are re-observed in this very run (3 x 60 s); their kinds are pre-registered so that random
+    # cases which time out in the same way are not each re-run three times (they are counted inconclusive).
+    for j in jobs:
+        if j[0] == "p" and j[1].startswith("hang_"):
+            try:
+                HANG_PRESEEDED.add("hang:" + json.load(open(os.path.join(PINDIR, j[1], "args.json")))["kind"])
+            except (OSError, ValueError, KeyError):
+                pass
     pmap(go, jobs)
     ctx.extra["distinct_crash_signatures"] = sorted(SEEN)
